@@ -498,3 +498,27 @@ def elementwise_scaling_only_for_sized_values(ctx):
     ctx.check(not bare_len or sized, 'Monitor.__call__#selector', 'elementwise scaling is not selected by hasattr(y, "__len__") alone',
               'Monitor.__call__ selects elementwise k-scaling with `%s`: a 0-d numpy array (Powell\'s energies) has __len__ but cannot be iterated, so a monitor with k set raises TypeError when it records one'
               % T.show(cond)[:80], f, f.node, statement='elementwise k-scaling selected by hasattr(y, "__len__")')
+
+
+@rule('C20.k', min_instances=2)
+def converted_files_keep_the_cost_scale(ctx):
+    """write_support_file / write_converge_file re-shape the trajectory through a temporary monitor built from the source monitor's UNSCALED costs (read_monitor reads mon.y); the source's k must therefore be given to write_monitor, which scales the costs as it stores them - copying k onto the temporary monitor afterwards makes write_raw_file divide the unscaled costs by k once more (a Monitor(k=-1) is written with negated costs)"""
+    for name in ('write_support_file', 'write_converge_file'):
+        f = ctx.func(MU + ':' + name)
+        mp = f.args()[0]
+        b = T.Builder()
+        tmp = None
+        late = None
+        for st in f.node.body:
+            if isinstance(st, ast.Assign) and len(st.targets) == 1 and isinstance(st.targets[0], ast.Name) and isinstance(st.value, ast.Call) and callee_text(st.value) == 'write_monitor':
+                tmp = (st.targets[0].id, st, T.simp(T.term(st.value)))
+            elif tmp and isinstance(st, ast.Assign) and any(isinstance(tg, ast.Attribute) and tg.attr == 'k' and isinstance(tg.value, ast.Name) and tg.value.id == tmp[0] for tg in st.targets):
+                late = st
+        ctx.need(tmp is not None, '%s no longer builds its temporary monitor with write_monitor' % name)
+        kws = dict(tmp[2][3])
+        k_given = kws.get('k') == ('attr', ('name', mp), 'k') or (len(tmp[2][2]) >= 4 and tmp[2][2][3] == ('attr', ('name', mp), 'k'))
+        reads_unscaled = any(isinstance(x, tuple) and x and x[0] == 'call' and T.show(x[1]) == 'read_monitor' for x in T.subterms(tmp[2]))
+        ctx.need(reads_unscaled, '%s no longer converts read_monitor(%s)' % (name, mp))
+        ctx.check(k_given and late is None, name + '#k', 'write_monitor(..., k=%s.k): the costs are scaled as they are stored' % mp,
+                  '%s builds its temporary monitor from the unscaled costs %s: k is %s, so the written costs are divided by k twice'
+                  % (name, 'without k' if not k_given else 'with k', 'copied onto it afterwards (%s)' % norm_stmt(late) if late is not None else 'never applied'), f, late if late is not None else tmp[1])
